@@ -197,7 +197,7 @@ def run_c14(rep, tier, seed):
         wl.append((Hist(f"dead{di}", f"cfg mfs={mfs} sync=none frag=0/1 dead=0 small=1099511627776 cache=0 pool=0", ops), dict(mfs=mfs, preset="all", keys=[k1, k2], cache=0, pool=0)))
         ops = [("del", k1), ("merge",), ("del", k2), ("reopen",), ("merge",)]
         wl.append((Hist(f"tomb{di}", f"cfg mfs={mfs} sync=none frag=0/1 dead=0 small=1099511627776 cache=0 pool=0", ops), dict(mfs=mfs, preset="all", keys=[k1, k2], cache=0, pool=0)))
-    root = os.path.join(WORK, "run-C14")
+    root = os.path.join(RUNS, "run-C14")
     all_lines, spans = [], []
     for h, meta in wl:
         lines, tags = trace_script(h, meta)
@@ -554,7 +554,7 @@ def life_after_crash(rep, tier, rng, prop, h, meta, lines, tags, root, compare_m
 def run_cut_property(rep, tier, seed, prop, loss):
     rng = random.Random(seed * 1000 + int(prop[1:]))
     n = (40 if tier == "quick" else 400)
-    root = os.path.join(WORK, "run-" + prop)
+    root = os.path.join(RUNS, "run-" + prop)
     nv = 0
     nvk = {}
     known = set()
